@@ -1,9 +1,92 @@
 /-
-  C20 helper lemmas, part 6: `InvD` across `delay` (time passes only while nothing instantaneous is
-  pending, and never beyond an active deadline), and for every reachable state.
+  C20 helper lemmas: the invariants hold in every reachable state (assembly of the per-group files, plus
+  `InvD` across `delay`: time passes only while nothing instantaneous is pending, never beyond an active deadline).
 -/
-import Kopf.Lemmas.C20_InvD
+import Kopf.Lemmas.C20_InvA_g1
+import Kopf.Lemmas.C20_InvA_g2
+import Kopf.Lemmas.C20_InvA_g3
+import Kopf.Lemmas.C20_InvA_g4
+import Kopf.Lemmas.C20_InvB_g1
+import Kopf.Lemmas.C20_InvB_g2
+import Kopf.Lemmas.C20_InvB_g3
+import Kopf.Lemmas.C20_InvB_g4
+import Kopf.Lemmas.C20_InvC_g1
+import Kopf.Lemmas.C20_InvC_g2
+import Kopf.Lemmas.C20_InvC_g3
+import Kopf.Lemmas.C20_InvC_g4
+import Kopf.Lemmas.C20_InvE_g1
+import Kopf.Lemmas.C20_InvE_g2
+import Kopf.Lemmas.C20_InvE_g3
+import Kopf.Lemmas.C20_InvE_g4
+import Kopf.Lemmas.C20_InvD_d1
+import Kopf.Lemmas.C20_InvD_d2
+import Kopf.Lemmas.C20_InvD_d3
+import Kopf.Lemmas.C20_InvD_d4
+import Kopf.Lemmas.C20_InvD_d5
+import Kopf.Lemmas.C20_InvD_d6
+import Kopf.Lemmas.C20_InvD_d7
+import Kopf.Lemmas.C20_InvD_d8
+import Kopf.Lemmas.C20_InvD_d9
+import Kopf.Lemmas.C20_InvD_d10
 namespace Kopf.C20
+
+theorem InvA.preserved {cfg : Cfg} {s s' : State} {l : Label} (hI : InvA s)
+    (h : step cfg s l = some s') : InvA s' := by
+  rcases l.grp_cases with hg | hg | hg | hg
+  · exact InvA.pres_g1 hI hg h
+  · exact InvA.pres_g2 hI hg h
+  · exact InvA.pres_g3 hI hg h
+  · exact InvA.pres_g4 hI hg h
+
+theorem InvA.reach {cfg : Cfg} {s : State} (h : Reach cfg s) : InvA s :=
+  Reach.induction (P := InvA) InvA.init (fun _ _ _ _ hI hs => InvA.preserved hI hs) s h
+
+theorem InvB.preserved {cfg : Cfg} {s s' : State} {l : Label} (hI : InvB s)
+    (h : step cfg s l = some s') : InvB s' := by
+  rcases l.grp_cases with hg | hg | hg | hg
+  · exact InvB.pres_g1 hI hg h
+  · exact InvB.pres_g2 hI hg h
+  · exact InvB.pres_g3 hI hg h
+  · exact InvB.pres_g4 hI hg h
+
+theorem InvB.reach {cfg : Cfg} {s : State} (h : Reach cfg s) : InvB s :=
+  Reach.induction (P := InvB) InvB.init (fun _ _ _ _ hI hs => InvB.preserved hI hs) s h
+
+theorem InvC.preserved {cfg : Cfg} {s s' : State} {l : Label} (hB : InvB s) (hI : InvC s)
+    (h : step cfg s l = some s') : InvC s' := by
+  rcases l.grp_cases with hg | hg | hg | hg
+  · exact InvC.pres_g1 hB hI hg h
+  · exact InvC.pres_g2 hB hI hg h
+  · exact InvC.pres_g3 hB hI hg h
+  · exact InvC.pres_g4 hB hI hg h
+
+theorem InvC.reach {cfg : Cfg} {s : State} (h : Reach cfg s) : InvC s :=
+  Reach.induction (P := InvC) InvC.init (fun _ _ _ hr hI hs => InvC.preserved (InvB.reach hr) hI hs) s h
+
+theorem InvE.preserved {cfg : Cfg} {s s' : State} {l : Label} (hI : InvE cfg s)
+    (h : step cfg s l = some s') : InvE cfg s' := by
+  rcases l.grp_cases with hg | hg | hg | hg
+  · exact InvE.pres_g1 hI hg h
+  · exact InvE.pres_g2 hI hg h
+  · exact InvE.pres_g3 hI hg h
+  · exact InvE.pres_g4 hI hg h
+
+theorem InvE.reach {cfg : Cfg} {s : State} (h : Reach cfg s) : InvE cfg s :=
+  Reach.induction (P := InvE cfg) (InvE.init cfg) (fun _ _ _ _ hI hs => InvE.preserved hI hs) s h
+
+theorem InvD.preserved_nodelay {cfg : Cfg} {s s' : State} {l : Label} (hB : InvB s) (hC : InvC s)
+    (hI : InvD cfg s) (hl : ∀ n, l ≠ .delay n) (h : step cfg s l = some s') : InvD cfg s' := by
+  rcases l.grpD_cases with hg | hg | hg | hg | hg | hg | hg | hg | hg | hg
+  · exact InvD.pres_d1 hB hC hI hl hg h
+  · exact InvD.pres_d2 hB hC hI hl hg h
+  · exact InvD.pres_d3 hB hC hI hl hg h
+  · exact InvD.pres_d4 hB hC hI hl hg h
+  · exact InvD.pres_d5 hB hC hI hl hg h
+  · exact InvD.pres_d6 hB hC hI hl hg h
+  · exact InvD.pres_d7 hB hC hI hl hg h
+  · exact InvD.pres_d8 hB hC hI hl hg h
+  · exact InvD.pres_d9 hB hC hI hl hg h
+  · exact InvD.pres_d10 hB hC hI hl hg h
 
 theorem TS.live_of_not_ended {t : TS} (h1 : t.ended = false) (h2 : t ≠ .absent) : t.live = true := by
   cases t <;> simp_all
